@@ -38,7 +38,8 @@ ASSUMPTIONS = [
     'only after the request events) and their monitors encode PEP 3333 / the ASGI HTTP spec',
     'the application sets documented value types only: status int 100..999, a status line "NNN reason" '
     '(ASCII reason) or an http.HTTPStatus member; text str; data bytes; media JSON-serialisable; header and '
-    'cookie values printable ASCII; Content-Length / Content-Type only via content_length / content_type / '
+    'cookie values printable ASCII str (extra header values also small ints, through set_header / append_header / '
+    'set_headers with a dict or a list of pairs: falcon converts header values with str()); Content-Length / Content-Type only via content_length / content_type / '
     'set_header / set_stream (never append_header)',
     'an empty text / data value is generated only when no other body source is set (whether "" counts as '
     '"set" for the precedence rule is not documented)',
@@ -420,6 +421,10 @@ def fill_response(case, resp, rec):
     for how, name, value in case.get('headers') or ():
         if how == 'append':
             resp.append_header(name, value)
+        elif how == 'set_headers_dict':
+            resp.set_headers({name: value})
+        elif how == 'set_headers_list':
+            resp.set_headers([(name, value)])
         else:
             resp.set_header(name, value)
     for name, value in case.get('cookies') or ():
@@ -666,6 +671,10 @@ def check_case(case):
         labels.append('preset_content_type')
     if case.get('cookies') or case.get('headers'):
         labels.append('cookies/extra_headers')
+    if any(not isinstance(h[2], str) for h in case.get('headers') or ()):
+        labels.append('non_str_header_value')
+    if any(h[0].startswith('set_headers') for h in case.get('headers') or ()):
+        labels.append('set_headers()')
     nontrivial = nsrc >= 2 or (bodiless and nsrc >= 1) or late_fault
     return Info(nontrivial, labels)
 
@@ -979,8 +988,11 @@ def _response_case(draw):
     case['cookies'] = draw(st.lists(st.tuples(st.text(alphabet=_TOKEN_CHARS, max_size=5).map(lambda s: 'ck' + s),
                                               st.text(alphabet=_TOKEN_CHARS, max_size=6)).map(list),
                                     max_size=draw(st.sampled_from([0, 0, 1, 3]))))
-    case['headers'] = draw(st.lists(st.tuples(st.sampled_from(['set', 'append']), st.sampled_from(_HEADER_NAMES),
-                                              _header_value).map(list),
+    # values may be non-str objects (an int Retry-After / X-Count is common): whatever the setter accepts must reach
+    # the server as a native string (or the setter must refuse it inside the responder, which yields a regular 500)
+    case['headers'] = draw(st.lists(st.tuples(st.sampled_from(['set', 'append', 'set', 'append', 'set_headers_dict', 'set_headers_list']),
+                                              st.sampled_from(_HEADER_NAMES),
+                                              st.one_of(_header_value, _header_value, st.integers(0, 1000))).map(list),
                                     max_size=draw(st.sampled_from([0, 0, 2, 4]))))
     if focus == 'stream_fault':
         case['custom'] = draw(st.sampled_from([None, None, None, ['none'], ['super']]))
